@@ -402,7 +402,7 @@ func ruleOneNormaliser(c *Ctx, rule string) {
 		calledByNorm := map[*ssa.Function]bool{}
 		for _, fn := range all {
 			if isNorm(fn) {
-				for _, g := range c.reachableFrom(fn) {
+				for g := range c.P.StaticTree(fn) { // static calls only: a yield inside resolves to unrelated loop bodies
 					if g != fn {
 						calledByNorm[g] = true
 					}
